@@ -184,6 +184,117 @@ func runC16(c *Ctx) {
 		}
 	}
 	c.Min("Q3-queries", 4)
+	// what the queries answer
+	type qspec struct{ fn, field string }
+	for _, q := range []qspec{{"GetRuleSalience", "Salience"}, {"GetRuleDesc", "RuleDescription"}} {
+		f := c.MustFn("Q3-query-answers", "engine", "GenginePool", q.fn)
+		if f == nil {
+			continue
+		}
+		x := c.Index(f)
+		ok := false
+		eachInstr(f, func(in ssa.Instruction) {
+			r, isR := in.(*ssa.Return)
+			if !isR || r.Block() == f.Recover {
+				return
+			}
+			for _, pv := range x.PossibleValues(r.Results[0]) {
+				b, is := x.isFieldLoad(pv.V, "RuleEntity", q.field)
+				if !is {
+					continue
+				}
+				if ex, isEx := x.Origin(b).(*ssa.Extract); isEx && ex.Index == 0 {
+					if lk, isLk := ex.Tuple.(*ssa.Lookup); isLk && x.Origin(lk.Index) == ssa.Value(f.Params[1]) {
+						if mb, isM := x.isFieldLoad(lk.X, "KnowledgeContext", "RuleEntities"); isM {
+							if kb, isK := x.isFieldLoad(mb, "RuleBuilder", "Kc"); isK {
+								if _, isMaster := x.isFieldLoad(kb, "GenginePool", "ruleBuilder"); isMaster {
+									ok = true
+								}
+							}
+						}
+					}
+				}
+			}
+		})
+		c.Check("Q3-query-answers", "GenginePool."+q.fn, ok, f.Pos(), "%s must answer with the %s of the rule found under the given name in the master's name map", q.fn, q.field)
+	}
+	if f := c.MustFn("Q3-query-answers", "engine", "GenginePool", "GetRulesNumber"); f != nil {
+		x := c.Index(f)
+		ok := false
+		eachInstr(f, func(in ssa.Instruction) {
+			if r, isR := in.(*ssa.Return); isR && r.Block() != f.Recover {
+				for _, pv := range x.PossibleValues(r.Results[0]) {
+					if args, isLen := builtinCall(pv.V, "len"); isLen {
+						if mb, isM := x.isFieldLoad(args[0], "KnowledgeContext", "RuleEntities"); isM {
+							if kb, isK := x.isFieldLoad(mb, "RuleBuilder", "Kc"); isK {
+								if _, isMaster := x.isFieldLoad(kb, "GenginePool", "ruleBuilder"); isMaster {
+									ok = true
+								}
+							}
+						}
+					}
+				}
+			}
+		})
+		c.Check("Q3-query-answers", "GenginePool.GetRulesNumber", ok, f.Pos(), "GetRulesNumber must answer with the size of the master's name map")
+	}
+	if f := c.MustFn("Q3-query-answers", "engine", "GenginePool", "IsExist"); f != nil {
+		x := c.Index(f)
+		ok := false
+		eachInstr(f, func(in ssa.Instruction) {
+			st, isSt := in.(*ssa.Store)
+			if !isSt {
+				return
+			}
+			args, isApp := builtinCall(st.Val, "append")
+			if !isApp {
+				return
+			}
+			el := x.appendedSingle(args[1])
+			if el == nil {
+				return
+			}
+			if ex, isEx := x.Origin(el).(*ssa.Extract); isEx && ex.Index == 1 {
+				if lk, isLk := ex.Tuple.(*ssa.Lookup); isLk {
+					if s, _, isR := x.rangedSlice(lk.Index); isR && x.Origin(s) == ssa.Value(f.Params[1]) && len(x.GuardsOfInLoop(st.Block())) == 0 {
+						if mb, isM := x.isFieldLoad(lk.X, "KnowledgeContext", "RuleEntities"); isM {
+							if kb, isK := x.isFieldLoad(mb, "RuleBuilder", "Kc"); isK {
+								if _, isMaster := x.isFieldLoad(kb, "GenginePool", "ruleBuilder"); isMaster {
+									ok = true
+								}
+							}
+						}
+					}
+				}
+			}
+		})
+		c.Check("Q3-query-answers", "GenginePool.IsExist", ok, f.Pos(), "IsExist must append, for each given name in order, whether the master's name map has it")
+	}
+	if f := c.MustFn("Q3-query-answers", "engine", "GenginePool", "GetExecModel"); f != nil {
+		x := c.Index(f)
+		ok := false
+		eachInstr(f, func(in ssa.Instruction) {
+			if r, isR := in.(*ssa.Return); isR {
+				if b, is := x.isFieldLoad(r.Results[0], "GenginePool", "execModel"); is && x.Origin(b) == ssa.Value(f.Params[0]) {
+					ok = true
+				}
+			}
+		})
+		c.Check("Q3-query-answers", "GenginePool.GetExecModel", ok, f.Pos(), "GetExecModel must answer with the stored model")
+	}
+	if f := c.MustFn("Q3-query-answers", "engine", "GenginePool", "SetExecModel"); f != nil {
+		x := c.Index(f)
+		ok := false
+		eachInstr(f, func(in ssa.Instruction) {
+			if st, isSt := in.(*ssa.Store); isSt {
+				if fa, isFA := st.Addr.(*ssa.FieldAddr); isFA && fieldOf(fa).Name() == "execModel" && x.Origin(st.Val) == ssa.Value(f.Params[1]) {
+					ok = true
+				}
+			}
+		})
+		c.Check("Q3-query-answers", "GenginePool.SetExecModel", ok, f.Pos(), "SetExecModel must store the model it was given")
+	}
+	c.Min("Q3-query-answers", 6)
 	// Q4
 	c.ruleLifecycle("Q4-cleared-runs-nothing", map[string]bool{"acquire": true, "cleared-runs-nothing": true})
 	c.Min("Q4-cleared-runs-nothing", 24)
